@@ -351,7 +351,7 @@ func (x *Exec) eval(sx *SX, env *Env) Val {
 		switch u := types.Unalias(v.T).Underlying().(type) {
 		case *types.Slice:
 			h := heapSymIn(x, env.heaps, env.epoch, eName(u.Elem()), x.eSort(u.Elem()))
-			return Val{S: fmt.Sprintf("(select (select %s (s.arr %s)) (+ (s.off %s) %s))", h, v.S, v.S, i.S), T: u.Elem()}
+			return Val{S: fmt.Sprintf("(%s %s %s %s)", x.selFn(u.Elem()), h, v.S, i.S), T: u.Elem()}
 		case *types.Array:
 			return Val{S: fmt.Sprintf("(select %s %s)", v.S, i.S), T: u.Elem()}
 		}
